@@ -81,7 +81,7 @@ EXC_CLASSES = ["RuntimeError", "ValueError", "KeyError", "LookupError", "TypeErr
 
 def make_exc(spec):
     """spec = (class name, message index) or None"""
-    if spec is None:
+    if spec is None or spec == "badresult":
         return RuntimeError("scripted failure")
     name, mi = spec
     msg = EXC_MESSAGES[mi % len(EXC_MESSAGES)]
@@ -136,10 +136,65 @@ def real_file(data):
     return _FILES[key]
 
 
+PIECES = {"1": [1], "7": [7], "1000": [1000], "mixed": [1, 65535, 3, 70000, 2, 4096], "64k-1": [65535], "64k+1": [65537]}
+
+
+class Piecewise(io.RawIOBase):
+    """a stream whose read(n) legally returns FEWER than n bytes although more data follows (pipe, socket, tty,
+    decompressor ...); optionally fails with OSError once `fail_at` bytes have been delivered"""
+    def __init__(self, data, sizes, fail_at=None):
+        super().__init__()
+        self._d, self._pos, self._sizes, self._i, self._fail_at = data, 0, sizes, 0, fail_at
+
+    def readable(self):
+        return True
+
+    def seekable(self):
+        return False
+
+    def readinto(self, buf):
+        if self._fail_at is not None and self._pos >= self._fail_at:
+            raise OSError(5, "scripted read failure in the middle of the stream")
+        n = min(len(buf), self._sizes[self._i % len(self._sizes)])
+        self._i += 1
+        end = self._pos + n if self._fail_at is None else min(self._pos + n, self._fail_at)
+        d = self._d[self._pos:end]
+        self._pos += len(d)
+        buf[:len(d)] = d
+        return len(d)
+
+
+def _feed(write, close, data):
+    def run():
+        try:
+            for i in range(0, len(data), 1000):
+                write(data[i:i + 1000])
+        except OSError:
+            pass
+        finally:
+            close()
+    threading.Thread(target=run, daemon=True).start()
+
+
 def open_stream(data, src):
-    """src = (kind, how, k): kind bytesio | file | rawfile | nonseekable; how None | read | seek: the handler has
-    already consumed / skipped k bytes before it returns the stream"""
+    """src = (kind, how, k): kind bytesio | file | rawfile | nonseekable | piecewise | failmid | pipe | socketpair;
+    how None | read | seek: the handler has already consumed / skipped k bytes before it returns the stream;
+    piecewise: how names the read sizes; failmid: OSError after k bytes"""
     kind, how, k = src
+    if kind == "piecewise":
+        return Piecewise(data, PIECES[how])
+    if kind == "failmid":
+        return Piecewise(data, PIECES[how], fail_at=k)
+    if kind == "pipe":                                   # unbuffered file object on a real pipe
+        r, w = os.pipe()
+        _feed(lambda d: os.write(w, d), lambda: os.close(w), data)
+        return os.fdopen(r, "rb", buffering=0)
+    if kind == "socketpair":                             # socket.makefile("rb", 0): SocketIO
+        a, b = socket.socketpair()
+        _feed(a.sendall, a.close, data)
+        f = b.makefile("rb", buffering=0)
+        b.close()
+        return f
     if kind == "bytesio":
         f = io.BytesIO(data)
     elif kind == "file":
@@ -185,6 +240,8 @@ class ScriptHandler(S.HttpRequestHandler):
             body.read(n)
         act = context["act"]
         if act is None:
+            if context.get("exc") == "badresult":          # something that cannot be unpacked into (status, headers, body)
+                return (http.HTTPStatus.OK, {"X": "two-tuple"})
             raise make_exc(context.get("exc"))
         rv = context.get("rendezvous")
         if rv is not None:                      # ("wait", key): needs ANOTHER request to be served meanwhile
@@ -238,6 +295,9 @@ def server_port():
         _server = S.HttpServer([ScriptHandler(i) for i in range(MAXH)], "::1", 0)
         _server.start()
         _port = _server._server.server_address[1]
+        # socketserver prints a traceback when a worker dies because the client went away while http.server itself was
+        # writing; that is outside vinegar's code: keep the output clean
+        _server._server.handle_error = lambda request, client_address: None
         atexit.register(_server.stop)
     return _port
 
@@ -250,8 +310,18 @@ def request_bytes(c):
     return head.encode("latin-1") + b"\r\n" + body
 
 
-def do_request(c, timeout=20.0):
+_timeouts = [0]
+
+
+def _patience():
+    """every wait is bounded; a server that has stopped answering must not cost seconds per remaining case"""
+    return 8.0 if _timeouts[0] < 3 else (0.3 if _timeouts[0] < 10 else 0.05)
+
+
+def do_request(c, timeout=None):
     """-> (raw bytes until EOF, status lines produced, bytes left unflushed)"""
+    if timeout is None:
+        timeout = _patience()
     port = server_port()
     if c["path"].startswith("/"):
         SCRIPTS[c["path"]] = c
@@ -269,14 +339,19 @@ def do_request(c, timeout=20.0):
                 chunks.append(b"<connection reset>")
                 break
             except socket.timeout:
+                _timeouts[0] += 1
                 chunks.append(b"<timeout: connection not closed>")
                 break
             if not d:
                 break
             chunks.append(d)
+    except socket.timeout:
+        _timeouts[0] += 1
+        chunks = [b"<timeout: connect/send>"]
+        me = 0
     finally:
         s.close()
-    for _ in range(200):
+    for _ in range(200 if _timeouts[0] < 3 else 2):
         if me in RECORDS:
             break
         time.sleep(0.005)
@@ -336,9 +411,14 @@ def handler(can=True, act=None, prep_raises=False, can_raises=False, exc=None):
 
 
 def body_bytes(b):
-    """what the client is to receive: what the returned stream yields from its CURRENT position"""
-    if len(b) > 2 and b[2] is not None and b[2][1] is not None:
-        return b[0][b[2][2]:]
+    """what the client is to receive: what the returned stream yields from its CURRENT position until it ends or fails"""
+    if len(b) > 2 and b[2] is not None:
+        if b[2][0] == "failmid":
+            return b[0][:b[2][2]]
+        if b[2][0] in ("piecewise", "pipe", "socketpair"):
+            return b[0]
+        if b[2][1] is not None:
+            return b[0][b[2][2]:]
     return b[0]
 
 
@@ -385,7 +465,39 @@ class C03(Check):
         return {"method": method, "path": path if path is not None else "/c/%d" % i, "handlers": handlers,
                 "version": version, "reqbody": reqbody}
 
+    def survives_faulty_handlers(self):
+        """history on the ONE long-lived server: many requests whose handler raises (or returns garbage), ordinary
+        requests in between and afterwards - every one answered within the deadline"""
+        deadline = 2.0
+        hist = []
+        kinds = [("handle raises", dict(act=None, exc=("RuntimeError", 0))), ("prepare_context raises", dict(prep_raises=True, act=(200, None, None))),
+                 ("handle returns a 2-tuple", dict(act=None, exc="badresult")), ("can_handle raises", dict(can_raises=True, act=(200, None, None))),
+                 ("handle raises OSError", dict(act=None, exc=("ConnectionResetError", 1))), ("body stream fails", dict(act=(200, None, (b"x", True))))]
+        for i in range(40):
+            name, kw = kinds[i % len(kinds)]
+            raw, _n, _l = do_request(self.mk(METHODS[i % 5], [handler(**kw)]), timeout=deadline)
+            p = canonical(raw)
+            hist.append("%s -> %s" % (name, p[1] if p[0] == 1 else common._jsonable(p)))
+            ok = b"<timeout" not in raw          # WHAT is answered is judged by the ordinary cases; here: that it is answered
+            if ok and i % 4 == 3:
+                raw, _n, _l = do_request(self.mk("GET", [handler(act=(200, H(1), (b"still here %d" % i, False)))]), timeout=deadline)
+                p = canonical(raw)
+                hist.append("ordinary request -> %s" % (p[1] if p[0] == 1 else common._jsonable(p)))
+                ok = b"<timeout" not in raw
+            if not ok:
+                return ({"_extra": True, "probe": "requests to one long-lived server, in this order; the last one was not answered "
+                                                  "correctly within %.1f s" % deadline, "history": hist},
+                        ["keeps_answering_subsequent_requests"], common._jsonable(p), None)
+        return None
+
     def gen(self, tier, rng):
+        self.tier = tier
+        self._early_fail = self.survives_faulty_handlers()
+        if self._early_fail is not None:
+            return                  # the server has stopped serving: report that, do not time out case by case
+        yield from self.gen_cases(tier, rng)
+
+    def gen_cases(self, tier, rng):
         bodies = [None, (b"", False), (SMALL, False), (bigbody(), False)]
         # full product of the design scope
         for status in (200, 204, 301, 404, 500):
@@ -411,6 +523,23 @@ class C03(Check):
                         continue
                     for st, nh in ((200, 1), (404, None)):
                         yield self.mk("GET", [handler(act=(st, H(nh), (data, False, (kind, how, k))))])
+        # streams with short reads (legal for raw streams, pipes, sockets): the body is the WHOLE stream; a read that
+        # fails in the middle ends the response there
+        edge = [bytes((i * 13) & 0xFF for i in range(n)) for n in (65535, 65536, 65537, 131072, 200_001)]
+        for data in [SMALL, medium] + edge:
+            for how in PIECES:
+                if how in ("1", "7") and len(data) > 70000 and tier == "quick":
+                    continue            # hundreds of thousands of one-byte writes: thorough only
+                yield self.mk("GET", [handler(act=(200, H(1), (data, False, ("piecewise", how, 0))))])
+            yield self.mk("GET", [handler(act=(200, H(1), (data, False, ("pipe", None, 0))))])
+            yield self.mk("POST", [handler(act=(404, H(2), (data, False, ("socketpair", None, 0))))])
+            yield self.mk("GET", [handler(act=(200, None, (data, False, ("bytesio", None, 0))))])
+            for k in (0, 1, len(data) // 2, len(data) - 1):
+                yield self.mk("GET", [handler(act=(200, H(1), (data, True, ("failmid", "1000", k))))])
+        # falsy but valid header values, names that differ only in letter case
+        yield self.mk("GET", [handler(act=(200, [("X-Empty", ""), ("X-Zero", "0"), ("x-empty", " "), ("X-EMPTY", "False")], (b"b", False)))])
+        yield self.mk("GET", [handler(act=(404, [("X-Empty", "")], None))])
+        yield self.mk("GET", [handler(act=(200, [("X-Empty", "")], (b"", False)))])
         yield self.mk("HEAD", [handler(act=(200, H(1), (medium, False, ("file", "seek", 100))))])
         yield self.mk("POST", [handler(act=(200, None, (medium, False, ("rawfile", "read", 65536))))], reqbody=b"abc")
         # every exception class a handler may let escape, from each of its three methods: always the 500 page
@@ -555,7 +684,8 @@ class C03(Check):
                      "body": None if b is None else {"len": len(b[0]), "head": b[0][:40].hex(), "fails": b[1],
                                                      "stream(kind, consumed how, k bytes)": b[2] if len(b) > 2 else None}}
             return {"prep_raises": h["prep_raises"], "can_raises": h["can_raises"], "can": h["can"], "act": a,
-                    "raises": None if h.get("exc") is None else [h["exc"][0], EXC_MESSAGES[h["exc"][1] % len(EXC_MESSAGES)]]}
+                    "raises": None if h.get("exc") is None else ("handle returns a 2-tuple" if h["exc"] == "badresult" else
+                                                                [h["exc"][0], EXC_MESSAGES[h["exc"][1] % len(EXC_MESSAGES)]])}
         return {"method": c["method"], "path": c["path"], "http_version": "1.%d" % c.get("version", 0),
                 "handlers": [sh(h) for h in c["handlers"]]}
 
@@ -775,13 +905,17 @@ class C03(Check):
         return None
 
     def extra_checks(self, tier, rng, report):
+        if getattr(self, "_early_fail", None) is not None:
+            report["impl_failures"] += 1
+            report.setdefault("extra_failing", []).append(self._early_fail)
+            return
         if not self.concurrency_probe(report):
             return                      # a server that serialises requests would make the batches below time out one by one
         nthreads = 8
         rounds = 2 if tier == "quick" else 12
         per = 6 if tier == "quick" else 25
         crng = __import__("random").Random(rng.random())
-        pool = [c for c in itertools.islice(self.gen("quick", crng), 0, 700)]
+        pool = [c for c in itertools.islice(self.gen_cases("quick", crng), 0, 700)]
         report["extra"]["concurrent_requests"] = 0
         report["extra"]["liveness_probes"] = 0
         for _round in range(rounds):
